@@ -136,6 +136,22 @@ M_M2 = {'k': 'mod', 'name': 'M', 'atoms': [('CB', {'element': 'C', 'PTM_atom': F
         'sections': [], 'edges': [('CB', 'O1')]}
 M_N1 = {'k': 'mod', 'name': 'N', 'atoms': [('N', {'element': 'N', 'PTM_atom': False}), ('H2', {'element': 'H', 'PTM_atom': True})],
         'sections': [], 'edges': [('N', 'H2')]}
+# a block whose type-2 dihedrals (written under [ dihedrals ]) are followed by an explicit [ impropers ] section: the loaded
+# impropers are the dihedral-derived ones first, then the explicit ones, in file order
+B_C1 = {'k': 'block', 'name': 'C', 'nrexcl': 1, 'atoms': [
+    {'name': 'A', 'atype': 'P1', 'resid': 1, 'resname': 'C', 'cg': 1}, {'name': 'B', 'atype': 'P1', 'resid': 1, 'resname': 'C', 'cg': 2},
+    {'name': 'D', 'atype': 'P1', 'resid': 1, 'resname': 'C', 'cg': 3}, {'name': 'E', 'atype': 'P1', 'resid': 1, 'resname': 'C', 'cg': 4}],
+    'sections': [('bonds', [('inter', ['A', 'B'], ['1', '0.3', '100'], None), ('inter', ['B', 'D'], ['1', '0.3', '100'], None),
+                            ('inter', ['D', 'E'], ['1', '0.3', '100'], None)]),
+                 ('dihedrals', [('inter', ['A', 'B', 'D', 'E'], ['2', '10', '50'], None), ('inter', ['A', 'B', 'D', 'E'], ['1', '180', '5', '1'], None),
+                                ('inter', ['E', 'D', 'B', 'A'], ['2', '20', '60'], {'comment': 'second'})]),
+                 ('impropers', [('inter', ['B', 'A', 'D', 'E'], ['2', '30', '70'], None)])]}
+# a modification with proper and improper dihedrals
+M_N2 = {'k': 'mod', 'name': 'N', 'atoms': [('N', {'element': 'N', 'PTM_atom': False}), ('CA', {'element': 'C', 'PTM_atom': False}),
+                                        ('H2', {'element': 'H', 'PTM_atom': True}), ('H3', {'element': 'H', 'PTM_atom': True})],
+        'sections': [('dihedrals', [('inter', ['CA', 'N', 'H2', 'H3'], ['2', '0', '100'], None),
+                                    ('inter', ['H2', 'N', 'CA', 'H3'], ['1', '60', '3', '2'], {'version': 1})])],
+        'edges': [('N', 'H2'), ('N', 'H3'), ('N', 'CA')]}
 MACROS = {'k': 'macros', 'macros': [('bead', 'Q5'), ('dist', '0.33')]}
 VARIABLES = {'k': 'variables', 'variables': [('regular', '0.47'), ('name', '"quoted"')]}
 CITATIONS = {'k': 'citations', 'cites': ['Marrink2007']}
@@ -156,7 +172,8 @@ FAULTS = {
     'patterns-in-block': ['[ moleculetype ]', 'F 1', '[ atoms ]', '1 P1 1 F BB 1', '[ patterns ]', 'BB {"a": 1}'],
 }
 
-MENU = {1: MACROS, 2: VARIABLES, 3: CITATIONS, 4: B_A1, 5: B_A2, 6: B_B1, 7: L_1, 8: L_2, 9: L_3, 10: M_M1, 11: M_M2, 12: M_N1}
+MENU = {1: MACROS, 2: VARIABLES, 3: CITATIONS, 4: B_A1, 5: B_A2, 6: B_B1, 7: L_1, 8: L_2, 9: L_3, 10: M_M1, 11: M_M2, 12: M_N1,
+        13: B_C1, 14: M_N2}
 FAULT_IDS = {100 + i: name for i, name in enumerate(sorted(FAULTS))}
 
 
